@@ -223,4 +223,29 @@ def evenBfs (A : Table) (rank : Nat) :
 def evenAutomaton (A : Table) (rank fuel : Nat) : Option (List (Nat × List ((Nat × Nat) × Nat))) :=
   evenBfs A rank fuel [0] [] []
 
+/-- the product automaton returned by `evenAutomaton`: `vertex ↦ [(label, target)]` -/
+abbrev EvenG := List (Nat × List ((Nat × Nat) × Nat))
+
+/-- `graph[v][label]` of the even automaton -/
+def EvenG.step (E : EvenG) (v : Nat) (p : Nat × Nat) : Option Nat :=
+  (E.lookup v).bind fun es => es.lookup p
+
+def EvenG.follow (E : EvenG) : Nat → List (Nat × Nat) → Option Nat
+  | s, [] => some s
+  | s, p :: ps => (E.step s p).bind fun t => EvenG.follow E t ps
+
+def allPairs (rank : Nat) : List (Nat × Nat) :=
+  (List.range rank).flatMap fun k₁ => (List.range rank).map fun k₂ => (k₁, k₂)
+
+def edgesOf (A : Table) (rank v : Nat) : List ((Nat × Nat) × Nat) :=
+  (allPairs rank).filterMap fun p => (A.step2 v p).map fun t => (p, t)
+
+/-- the block word of a list of 2-letter labels (what `enumerate_words` prints for the even automaton) -/
+def unblock (ps : List (Nat × Nat)) : List Nat := ps.flatMap fun p => [p.1, p.2]
+
+/-- following 2-letter labels with `step2` -/
+def follow2 (A : Table) : Nat → List (Nat × Nat) → Option Nat
+  | s, [] => some s
+  | s, p :: ps => (A.step2 s p).bind fun t => follow2 A t ps
+
 end GT.CoxAut
